@@ -140,7 +140,14 @@ func TestVerifReplay_C03(t *testing.T) {
 			if failAt >= 0 {
 				variants = c03bad[steps[failAt].name]
 			}
-			for vi, bad := range variants {
+			for vi0, bad := range variants {
+			  // a reused session may come from a connection that had negotiated TLS, or not
+			  prevTLSs := []bool{false}
+			  if cf.resumable {
+				prevTLSs = []bool{false, true}
+			  }
+			  for _, prevTLS := range prevTLSs {
+				vi := vi0
 				cases++
 				var sb strings.Builder
 				for i, st := range steps {
@@ -157,6 +164,7 @@ func TestVerifReplay_C03(t *testing.T) {
 				if cf.resumable {
 					c.Session = &Session{transport: tr, BindJid: "u@d/old"}
 					c.Session.SMState = SMState{Id: "old", UnAckQueue: stanza.NewUnAckQueue()}
+					c.Session.TlsEnabled = prevTLS
 				}
 				established := 0
 				c.SetHandler(func(e Event) error {
@@ -175,7 +183,7 @@ func TestVerifReplay_C03(t *testing.T) {
 					}()
 					err = c.connect()
 				}()
-				desc := fmt.Sprintf("config %+v, steps %v, bad reply #%d at step %d", cf, stepNames(steps), vi, failAt)
+				desc := fmt.Sprintf("config %+v (previous connection with TLS: %v), steps %v, bad reply #%d at step %d", cf, prevTLS, stepNames(steps), vi, failAt)
 				wantOK := failAt == -1 && canAuth
 				if (err == nil) != wantOK || (established == 1) != wantOK || established > 1 {
 					report("%s: connect() = %v, SessionEstablished announced %d times; want success=%v", desc, err, established, wantOK)
@@ -186,6 +194,24 @@ func TestVerifReplay_C03(t *testing.T) {
 					if !tr.wSecure[i] && !cf.insecure && !strings.HasPrefix(w, "<stream>") && !strings.HasPrefix(w, "<starttls") {
 						report("%s: wrote %q on a connection that is not secure", desc, w)
 					}
+				}
+				// the stream is restarted before <auth/> exactly when TLS was negotiated on THIS connection
+				restartsBeforeAuth, sawAuth := 0, false
+				for _, w := range tr.w {
+					if strings.HasPrefix(w, "<auth") {
+						sawAuth = true
+						break
+					}
+					if w == "<stream>" {
+						restartsBeforeAuth++
+					}
+				}
+				wantRestarts := 0
+				if tlsHappens && cf.tlsOK {
+					wantRestarts = 1
+				}
+				if sawAuth && restartsBeforeAuth != wantRestarts {
+					report("%s: %d stream restart(s) before <auth/>, want %d (%v)", desc, restartsBeforeAuth, wantRestarts, tr.w)
 				}
 				// order of the client's own requests
 				order := []string{"<starttls", "<auth", "<resume", "<iq", "<enable"}
@@ -205,6 +231,7 @@ func TestVerifReplay_C03(t *testing.T) {
 				if wantOK && cf.resumable && cf.sm && (c.Session.BindJid != "u@d/old" || c.Session.SMState.Id != "old") {
 					report("%s: a confirmed resumption must keep the session (BindJid=%q id=%q)", desc, c.Session.BindJid, c.Session.SMState.Id)
 				}
+			  }
 			}
 		}
 	}
